@@ -316,6 +316,9 @@ def run_extraction(ex: Extraction, report):
         elif kind == "desugar_let_chains":
             n = _desugar_let_chains(t)
             rec["rewrites"].append({"rule": "let-chain desugaring: `if let P = E && C {B}` -> `if let P = E { if C {B} }` (only without else)", "count": n})
+        elif kind == "desugar_option_closures":
+            n = _desugar_option_closures(t)
+            rec["rewrites"].append({"rule": "Option combinator desugaring: `E.is_some_and(|P| B)` -> `(match E { Some(P) => { B }, None => false })`, `E.is_none_or(|P| B)` -> `(match E { Some(P) => { B }, None => true })`", "count": n})
         elif kind in ("sub", "subopt"):
             lhs, rhs = payload.split("=>", 1)
             _, p = parse_args(lhs.strip())
@@ -490,6 +493,93 @@ def _desugar_let_chains(t: SrcText):
         t.replace(amp, ob, "{ if " + rest + " ", t.o[amp])
         n += 1
         pos = m.end()
+
+
+def _receiver_start(mk, dot):
+    """Start offset of the postfix-expression that ends just before the `.` at `dot` (method-call receiver)."""
+    i = dot
+    while True:
+        j = i - 1
+        while j >= 0 and mk[j].isspace():
+            j -= 1
+        if j < 0:
+            raise Unsupported("cannot find receiver")
+        c = mk[j]
+        if c in ")]":
+            depth = 0
+            k = j
+            while k >= 0:
+                if mk[k] in ")]}":
+                    depth += 1
+                elif mk[k] in "([{":
+                    depth -= 1
+                    if depth == 0:
+                        break
+                k -= 1
+            if k < 0:
+                raise Unsupported("unbalanced receiver")
+            i = k
+            # a call `name(..)` / index `name[..]` / turbofish: keep going left over the callee
+            j2 = i - 1
+            if j2 >= 0 and (mk[j2].isalnum() or mk[j2] in "_>"):
+                continue_left = True
+            else:
+                continue_left = False
+            if not continue_left:
+                # parenthesised expression is the whole receiver unless preceded by `.`/`::`
+                pass
+            else:
+                # consume identifier
+                k = j2
+                while k >= 0 and (mk[k].isalnum() or mk[k] == "_"):
+                    k -= 1
+                i = k + 1
+        elif c == "?":
+            i = j
+            continue
+        elif c.isalnum() or c == "_":
+            k = j
+            while k >= 0 and (mk[k].isalnum() or mk[k] == "_"):
+                k -= 1
+            i = k + 1
+        else:
+            raise Unsupported("receiver shape not supported near %r" % mk[max(0, j - 20):j + 1])
+        # is there a `.` or `::` further left (method chain / path)?
+        j = i - 1
+        while j >= 0 and mk[j].isspace():
+            j -= 1
+        if j >= 0 and mk[j] == ".":
+            if j >= 1 and mk[j - 1] == ".":
+                return i  # range operator `..`
+            i = j
+            continue
+        if j >= 1 and mk[j - 1:j + 1] == "::":
+            i = j - 1
+            continue
+        return i
+
+
+def _desugar_option_closures(t: SrcText):
+    """`RECV.is_some_and(|PAT| BODY)` -> `(match RECV { Some(PAT) => { BODY }, None => false })` (and is_none_or -> true)."""
+    n = 0
+    while True:
+        mk = mask(t.s)
+        m = re.compile(r"\.\s*(is_some_and|is_none_or)\s*\(").search(mk)
+        if not m:
+            return n
+        op = m.end() - 1
+        cp = match_delim(mk, op)
+        inner = t.s[op + 1:cp]
+        mi = re.match(r"\s*\|([^|:]*)\|\s*", inner)
+        if not mi:
+            raise Unsupported("Option combinator with a non-closure or typed-parameter argument: %r" % inner[:40])
+        pat = mi.group(1).strip()
+        body = inner[mi.end():].rstrip().rstrip(",").rstrip()
+        rs = _receiver_start(mk, m.start())
+        recv = t.s[rs:m.start()]
+        dflt = "false" if m.group(1) == "is_some_and" else "true"
+        t.replace(rs, cp + 1, "(match %s { Some(%s) => { %s }, None => %s })" % (recv, pat, body, dflt), t.o[m.start()])
+        n += 1
 
 
 _SPEC_START = re.compile(
